@@ -5,4 +5,4 @@ Extraction Language OCaml.
 Definition keepN : N := N.add 0 0.
 Definition keepZ : Z := Z.add 0 0.
 Definition keepNat : nat := length (@nil N).
-Extraction "model_c12.ml" keepN keepZ keepNat model_obs judge known_class has_panic.
+Extraction "model_c12.ml" keepN keepZ keepNat model_obs judge known_class has_panic model_seq judge_seq.
